@@ -61,6 +61,9 @@ pub struct Data {
     pub f32_: bool,
     /// all coordinates (data, precomputed centroids, queries) are multiplied by 2^scale_exp
     pub scale_exp: i8,
+    /// added to every point (data, precomputed centroids, queries) before scaling; empty = none
+    #[serde(default)]
+    pub offset: Vec<f64>,
     pub rows: Vec<Vec<f64>>,
 }
 
@@ -144,10 +147,17 @@ pub fn data_strategy(nmax: usize) -> impl Strategy<Value = Data> {
         3 => rows_lattice(nmax.min(24)).prop_map(|r| (DataKind::Lattice, r)),
     ];
     let scale = prop_oneof![4 => Just(0i8), 1 => Just(10i8), 1 => Just(-10i8)];
-    (rows, 1usize..=W, any::<bool>(), scale).prop_map(|((kind, rows), p, f32_, scale_exp)| Data {
+    // data far from the origin (multiples of 16 per coordinate): zero-initialised buffers, centring
+    // assumptions and f32 cancellation all show up only there
+    let offset = prop_oneof![
+        3 => Just(vec![]),
+        2 => proptest::collection::vec((-4i32..=4).prop_map(|v| 16.0 * v as f64), W),
+    ];
+    (rows, 1usize..=W, any::<bool>(), scale, offset).prop_map(|((kind, rows), p, f32_, scale_exp, offset)| Data {
         kind,
         f32_,
         scale_exp,
+        offset: offset.into_iter().take(p).collect(),
         rows: cut(rows, p),
     })
 }
